@@ -125,6 +125,8 @@ def single_def(fi: FuncInfo, name: str):
 
 def resolve(fi: FuncInfo, expr: ast.AST, depth: int = 4) -> ast.AST:
     """Follow single-assignment local aliases: `x = self.t.get(k)` ... `x` -> the `get` call."""
+    if expr is None:
+        return None
     expr = strip_cast(expr)
     while depth > 0 and isinstance(expr, ast.Name):
         d = single_def(fi, expr.id)
